@@ -46,6 +46,8 @@ def inds_vectors(n):
     out.append((np.arange(n) * k + 1) % n)
     out.append(np.array([n - 1, 0, n - 1, n // 2, 0], dtype=np.int64))
     out.append(np.array([n // 2], dtype=np.int64))
+    # positions counted from the end, as take / __getitem__ accept them
+    out.append(np.array([-1, 0, -n, n // 2 - n], dtype=np.int64))
     return out
 
 
@@ -256,6 +258,34 @@ def check_chunk(col, kind, elems, boxes, subtypes, seed, scalar_stride=1, chunk_
                                                              order=(bi + i) % 4, form="scalar", index=i),
                                       f"element {jelem(e)} box {boxes[bi]}: got {got} expected {bool(Ex[i, bi])}",
                                       subtype=st)
+        # ---- arrays handed out by the object are the caller's: writing into them must not change later answers
+        try:
+            arr_w = L.make_array(kind, el, st, T)
+            wrote = []
+            for name in ("x", "y", "bounds", "bounds_x", "bounds_y"):  # derived results (not the raw buffer accessors, which are views by design)
+                try:
+                    v = getattr(arr_w, name, None)
+                except Exception:
+                    continue
+                if isinstance(v, np.ndarray) and v.flags.writeable and v.size:
+                    v[...] = 77
+                    wrote.append(name)
+            if wrote:
+                hits = Ex.sum(axis=0)
+                probe = list(np.argsort(-hits, kind="stable")[:3]) + [int(b) for b in np.nonzero(hits > 0)[0][::max(1, int((hits > 0).sum()) // 5)]]
+                for bi in probe:
+                    bi = int(bi)
+                    ob = L.tf_box(T, boxes[bi])
+                    col.count("evaluations", len(el))
+                    got = np.asarray(arr_w.intersects_bounds(ob))
+                    goti = np.asarray(arr_w.intersects_bounds(ob, ivs[1])) if len(el) else got
+                    if (got != Ex[:, bi]).any() or (len(el) and (goti != Ex[:, bi][ivs[1]]).any()):
+                        col.violation(f"{kind}.aliased_result", dict(base, subtype=st, T=list(T), box=list(boxes[bi]), form="after_writing_into_results",
+                                                                      written=wrote),
+                                      f"after writing into the arrays returned by {wrote}: got {got.tolist()} expected {Ex[:, bi].tolist()}")
+                        break
+        except Exception as ex:
+            col.violation(f"{kind}.aliased_result.raises", dict(base, subtype=st, T=list(T)), f"{type(ex).__name__}: {ex}")
     col.outcome("true", int(E.sum()))
     col.outcome("false", int((~E).sum()))
     col.sample({"kind": kind, "element": jelem(elems[min(3, n - 1)]), "box": list(boxes[len(boxes) // 2]),
